@@ -7,19 +7,30 @@ namespace Reamber.Osu
 
 theorem readInt_cases (s : Str) : (∃ v, readInt s = .ok v) ∨ readInt s = .error .value := by
   unfold readInt
-  cases hr : readNat? (takeSign (strip s)).2 <;> simp [hr]
+  cases numPrep s with
+  | none => exact Or.inr rfl
+  | some t =>
+    show (∃ v, readIntA t = .ok v) ∨ readIntA t = .error .value
+    unfold readIntA
+    cases hr : readNat? (takeSign t).2 <;> simp [hr]
 
-theorem readFloat_cases (s : Str) : (∃ v, readFloat s = .ok v) ∨ readFloat s = .error .value := by
-  cases h : readFloat s with
+theorem readFloatA_cases (s : Str) : (∃ v, readFloatA s = .ok v) ∨ readFloatA s = .error .value := by
+  cases h : readFloatA s with
   | ok v => exact Or.inl ⟨v, rfl⟩
   | error e =>
     right
-    unfold readFloat at h
+    unfold readFloatA at h
     dsimp only at h
     have he : e = .value := by
       repeat' split at h
       all_goals first | (injection h with h'; exact h'.symm) | (cases h)
     rw [he]
+
+theorem readFloat_cases (s : Str) : (∃ v, readFloat s = .ok v) ∨ readFloat s = .error .value := by
+  unfold readFloat
+  cases numPrep s with
+  | none => exact Or.inr rfl
+  | some t => exact readFloatA_cases t
 
 theorem list_len5 (l : List Str) (h : l.length = 5) : ∃ a b c d f, l = [a, b, c, d, f] := by
   rcases l with _ | ⟨a, _ | ⟨b, _ | ⟨c, _ | ⟨d, _ | ⟨f, _ | ⟨g, r⟩⟩⟩⟩⟩⟩ <;> simp at h
